@@ -18,7 +18,7 @@
 
 use std::collections::HashMap;
 use serde_json::{json, Value};
-use crate::common::{catch, read_behaviours, Args, Report};
+use crate::common::{catch, Args, Report};
 use model::*;
 
 #[global_allocator]
@@ -33,6 +33,46 @@ pub fn strs(v: &Value) -> Vec<String> { v.as_array().unwrap().iter().map(|x| x.a
 
 pub fn short_hex(b: &[u8]) -> String {
     if b.len() <= 600 { hex(b) } else { format!("{}..({} bytes)..{}", hex(&b[..300]), b.len(), hex(&b[b.len() - 100..])) }
+}
+
+/// One exported case of Gen_Codec in compact form (a thorough export has some 10^5 lines).
+pub struct CLine {
+    pub rec: &'static str,
+    pub cls: Vec<String>,
+    pub enc: Vec<u8>,
+    pub rest: usize,
+    pub c: Corr,
+    pub exp_outcome: String,
+    pub exp_fi: usize,
+    pub exp_pos: usize,
+}
+
+impl CLine {
+    pub fn corr_json(&self) -> Value {
+        json!({"k": self.c.k, "f": self.c.f, "how": self.c.how, "at": self.c.at, "by": self.c.by, "cut": self.c.cut})
+    }
+}
+
+/// Reads the behaviour file line by line: (record cases, archive cases).
+fn read_lines(path: &str) -> (Vec<CLine>, Vec<Value>) {
+    use std::io::BufRead;
+    let f = std::fs::File::open(path).unwrap_or_else(|e| { eprintln!("vh: cannot open {path}: {e}"); std::process::exit(2) });
+    let mut lines = Vec::new();
+    let mut arch = Vec::new();
+    for l in std::io::BufReader::new(f).lines() {
+        let l = l.expect("read behaviour file");
+        if l.trim().is_empty() { continue }
+        let v: Value = serde_json::from_str(&l).unwrap_or_else(|e| { eprintln!("vh: bad behaviour line: {e}"); std::process::exit(2) });
+        if v.get("archive").is_some() { arch.push(v); continue }
+        let rec = v["rec"].as_str().unwrap();
+        let rec = *RECORDS.iter().find(|r| **r == rec).expect("record type");
+        lines.push(CLine {
+            rec, cls: strs(&v["cls"]), enc: bytes_of(&v["enc"]), rest: v["rest"].as_u64().unwrap() as usize, c: Corr::from_json(&v["c"]),
+            exp_outcome: v["exp"]["outcome"].as_str().unwrap().to_string(), exp_fi: v["exp"]["fi"].as_u64().unwrap() as usize,
+            exp_pos: v["exp"]["pos"].as_u64().unwrap() as usize,
+        });
+    }
+    (lines, arch)
 }
 
 /// Model fidelity: constants of the spec that mirror third-party behaviour.
@@ -65,8 +105,7 @@ pub fn main(args: &Args) -> i32 {
         _ => {}
     }
     crate::env::init_process();
-    let all = read_behaviours(args.input.as_deref().expect("--in"));
-    let (arch_lines, lines): (Vec<Value>, Vec<Value>) = all.into_iter().partition(|l| l.get("archive").is_some());
+    let (lines, arch_lines) = read_lines(args.input.as_deref().expect("--in"));
     let mut rep = Report::new("codec");
     for p in PROPS { rep.touch(p); }
     if !fidelity(&mut rep) { return rep.write(args) }
@@ -98,22 +137,23 @@ fn round_trip(rec: &str, v: &real::Real, rest: &[u8]) -> Result<RoundTrip, (Stri
     }
 }
 
-fn c28(rep: &mut Report, lines: &[Value], args: &Args) {
+fn c28(rep: &mut Report, lines: &[CLine], args: &Args) {
     let pid = "C28";
     let mut seen_inflated: HashMap<String, ()> = HashMap::new();
-    for l in lines.iter().filter(|l| l["c"]["k"] == "none") {
-        let rec = l["rec"].as_str().unwrap();
-        let cls = strs(&l["cls"]);
-        let enc = bytes_of(&l["enc"]);
-        let nrest = l["rest"].as_u64().unwrap() as usize;
+    for (ln, l) in lines.iter().enumerate().filter(|(_, l)| l.c.k == "none") {
+        let rec = l.rec;
+        let cls = l.cls.clone();
+        let enc = &l.enc;
+        let nrest = l.rest;
         let rest = enc[enc.len() - nrest..].to_vec();
         let g = grammar(rec);
         let has_inflatable = g.iter().zip(&cls).any(|((_, t), c)| inflatable(*t, c));
         for inflate in [false, true] {
             if inflate && (!has_inflatable || nrest != 0) { continue }
-            if inflate && !args.thorough() {
-                // quick: one inflated round trip per combination of inflated fields
-                let key = format!("{rec}|{:?}", g.iter().zip(&cls).enumerate().filter(|(_, ((_, t), c))| inflatable(*t, c)).map(|(i, _)| i).collect::<Vec<_>>());
+            if inflate {
+                // one inflated round trip per combination of inflated fields (thorough: 16 per combination)
+                let key = format!("{rec}|{:?}|{}", g.iter().zip(&cls).enumerate().filter(|(_, ((_, t), c))| inflatable(*t, c)).map(|(i, _)| i).collect::<Vec<_>>(),
+                                  if args.thorough() { ln % 16 } else { 0 });
                 if seen_inflated.insert(key, ()).is_some() { continue }
             }
             let vals = values_of(rec, &cls, inflate);
